@@ -113,6 +113,28 @@ pub fn gen_case_cfg(t: &mut Tape, hazard: Option<&'static str>, hazard_names: bo
     let mut source = print::program(&prog).trim_end().to_string();
     if !hazard_names && t.chance(1, 3) {
         source.push_str(*t.pick(EXTRAS));
+    } else if !hazard_names && t.chance(1, 5) {
+        // an array whose elements are columns of the frame, used after a step that forces a
+        // sub-query, by a filter / derive that is the only user of those columns
+        let uniq: Vec<&String> = frame
+            .cols
+            .iter()
+            .filter_map(|c| c.name.as_ref())
+            .filter(|n| frame.cols.iter().filter(|c| c.name.as_ref() == Some(*n)).count() == 1)
+            .collect();
+        if uniq.len() >= 2 && frame.wild_rels.is_empty() {
+            let a = crate::model::print::ident(uniq[t.choose(uniq.len())]);
+            let b = crate::model::print::ident(uniq[t.choose(uniq.len())]);
+            // (a take far from its sort is a recorded finding: the take is only added to unsorted programs)
+            let split = if source.contains("sort") { "" } else { *t.pick(&[" | take 7", " | take 2..9", "", " | filter true | take 7"]) };
+            let tail = match t.choose(4) {
+                0 => format!("{split} | filter (1 | in [{a}, {b}]) | select {{zq17 = 2}}"),
+                1 => format!("{split} | derive {{zq18 = (0 | in [{a}, {b}])}} | select {{zq18}}"),
+                2 => format!("{split} | filter ({a} | in [{b}, {a}]) | select {{zq19 = 3}}"),
+                _ => format!("{split} | join zj2 = (from t1 | select {{zid = id}}) (zj2.zid | in [{a}, {b}]) | select {{zj2.zid}}"),
+            };
+            source.push_str(&tail);
+        }
     }
     source.push('\n');
     let flags: Vec<String> = touched.iter().map(|s| s.to_string()).chain(prog.has_window().then(|| "uses_window".to_string())).collect();
@@ -433,6 +455,16 @@ fn capture_finding(case: &Case, sql: &str, known: &Known) -> Option<Verdict> {
 }
 
 pub fn check_c09(case: &Case, known: &Known) -> Outcome {
+    // a name containing a backslash inside the placeholder of an f-string: the string's escape
+    // sequences and the identifier's verbatim spelling compete for the backslash; the book does not say
+    // which wins, so such cases are not judged
+    {
+        static RE: std::sync::OnceLock<regex::Regex> = std::sync::OnceLock::new();
+        let re = RE.get_or_init(|| regex::Regex::new(r#"f"[^"\n]*\{[^}"\n]*\\"#).unwrap());
+        if re.is_match(&case.source) {
+            return Outcome::skip("backslash_name_inside_fstring_placeholder").class("ambiguous");
+        }
+    }
     // (i) rows on SQLite against tables / columns created with exactly those names
     let (mut o1, _) = c01::judge(&case.base, known);
     if let Verdict::Fail(_, d) = &o1.verdict {
@@ -449,6 +481,25 @@ pub fn check_c09(case: &Case, known: &Known) -> Outcome {
         if let Some(v) = capture_finding(case, &sql, known) {
             o2.verdict = v;
             return o2;
+        }
+    }
+    // (iii) a word the dialect reserves is never emitted bare. Decided for Redshift's own reserved
+    // words (the only dialect-specific list): compiled last on this thread, after the same program
+    // went through the other dialects, so a decision remembered from another dialect shows.
+    if let util::Compiled::Sql(sql) = util::compile(&case.source, Some(prqlc::sql::Dialect::Redshift)) {
+        use sqlparser::tokenizer::{Token, Tokenizer};
+        let d = sqlparser::dialect::RedshiftSqlDialect {};
+        if let Ok(toks) = Tokenizer::new(&d, &sql).tokenize() {
+            for tk in toks {
+                if let Token::Word(w) = tk {
+                    if w.quote_style.is_none() && crate::model::gen::REDSHIFT_ONLY_RESERVED.contains(&w.value.to_lowercase().as_str()) && case.source.contains(&w.value) {
+                        return Outcome::fail(
+                            "a word reserved by the dialect is emitted as a bare identifier",
+                            json!({"source": case.source, "dialect": "redshift", "word": w.value, "sql": sql}),
+                        );
+                    }
+                }
+            }
         }
     }
     let hazardous = HAZARD_NAMES.iter().filter(|n| case.source.contains(&format!("`{n}`")) || case.source.contains(*n)).count();
@@ -546,6 +597,8 @@ pub fn run_c05(ctx: &Ctx) -> i32 {
         o.nontrivial = o.classes.iter().any(|k| k == "column_exclusion_emitted");
         o
     });
+    // columns whose names differ only in case, through shapes that split the query
+    ctx.tape_search("case-variant-columns", ctx.n(800, 8_000), 20, crate::prop::c09b::gen_case_variant, |c| crate::prop::c09b::check_variant(c, &ctx.known));
     // set operations: appends of simple inputs followed by projections / derives / exclusions
     ctx.tape_search("append-then-project", ctx.n(3_000, 100_000), 450, |t| gen_case_cfg(t, None, false, true), |c| check(c, &ctx.known, Mode::C05, false));
     for h in HAZ_C05 {
